@@ -29,6 +29,14 @@ class Truth:
             raised = C.raised_map(oc)
             if oc['open']:
                 pred = {'started': True, 'events': [], 'phases': []}
+            elif oc.get('debug'):
+                # -D: test.debug() lets the first exception through (the runner reports it and
+                # enters the debugger); a skip is a skip, anything else an error
+                exc = [x for x in raised.values()]
+                kind = 'success' if not exc else ('skip' if exc[0] == 'SkipTest' else 'error')
+                if d['t'].get('deco') == 'skip':
+                    kind = 'skip'
+                pred = {'started': True, 'events': [(kind, 'test')], 'phases': []}
             else:
                 pred = W.predict_test(W.with_class_flags(d), raised)
             self.occs.append({
